@@ -37,7 +37,8 @@ var c26CtorKind = map[string]string{"NewBytes": "Kind_Bytes", "NewInt": "Kind_In
 
 type c26MapWrite struct {
 	in    *ssa.MapUpdate
-	key   string // constant key ("" if dynamic)
+	val   ssa.Value // value stored (the table row's value when the write is table-driven)
+	key   string    // constant key ("" if dynamic)
 	isK   bool
 	ctor  string
 	ctorC *ssa.Call
@@ -92,7 +93,7 @@ func c26Lift(roots []ssa.Value, chain []c26Hop) ([]ssa.Value, bool) {
 }
 
 // c26Helpers: unexported package-local functions called from fn with an argument satisfying passes (depth 1).
-func c26Helpers(fn *ssa.Function, passes func(ssa.Value) bool) []c26Hop {
+func c26Helpers(fn *ssa.Function, passes func(ssa.Value) bool, takeIf func(*ssa.Function) bool) []c26Hop {
 	var out []c26Hop
 	seen := map[*ssa.Function]bool{}
 	for _, call := range an.AllCalls(fn) {
@@ -101,12 +102,18 @@ func c26Helpers(fn *ssa.Function, passes func(ssa.Value) bool) []c26Hop {
 		if cv == nil || !c25InPkgHelper(fn, h) || seen[h] {
 			continue
 		}
+		take := false
 		for _, a := range cv.Call.Args {
 			if passes(a) {
-				seen[h] = true
-				out = append(out, c26Hop{cv, h})
-				break
+				take = true
 			}
+		}
+		if !take && takeIf != nil && takeIf(h) {
+			take = true
+		}
+		if take {
+			seen[h] = true
+			out = append(out, c26Hop{cv, h})
 		}
 	}
 	return out
@@ -115,7 +122,7 @@ func c26Helpers(fn *ssa.Function, passes func(ssa.Value) bool) []c26Hop {
 func runC26(c *an.Ctx) {
 	p := c.P
 	const ip = "ipns"
-	fNode, fPB := p.Field(ip, "Record", "node"), p.Field(ip, "Record", "pb")
+	fPB, fNode := c25RecordFields(p)
 	fSig2 := c25PBField(p, "SignatureV2")
 	if !c.Need(fNode != nil && fPB != nil && fSig2 != nil, "ipns.Record.node/pb, pb.IpnsRecord.SignatureV2") {
 		return
@@ -150,15 +157,38 @@ func runC26(c *an.Ctx) {
 			if !ok {
 				return
 			}
-			w := c26MapWrite{in: mu, fn: fn, chain: chain}
-			if k, ok := an.ConstOf(mu.Key); ok && k.Kind() == constant.String {
-				w.key, w.isK = constant.StringVal(k), true
-			}
-			if call, ok := c25RootCall(mu.Value, an.M(c26Basic, "", "")); ok {
-				w.ctor, w.ctorC = an.Callee(call).Name, call
-			}
-			writes = append(writes, w)
 			maps = append(maps, mu.Map)
+			mk := func(key, val ssa.Value) c26MapWrite {
+				w := c26MapWrite{in: mu, val: val, fn: fn, chain: chain}
+				if k, ok := an.ConstOf(key); ok && k.Kind() == constant.String {
+					w.key, w.isK = constant.StringVal(k), true
+				}
+				if call, ok := c25RootCall(val, an.M(c26Basic, "", "")); ok {
+					w.ctor, w.ctorC = an.Callee(call).Name, call
+				}
+				return w
+			}
+			// table-driven form: for _, e := range []struct{key; node}{...} { m[e.key] = e.node }: one write per row
+			if rk, okK := c25RowRead(mu.Key); okK {
+				if rv, okV := c25RowRead(mu.Value); okV && rk.arr == rv.arr && rk.idx == rv.idx {
+					rows, okT := c25TableRows(rk.arr)
+					if l := c25RowLoop(fn, &rk); okT && l != nil && l.EveryIteration(mu) {
+						var ws []c26MapWrite
+						for _, row := range rows {
+							if row[rk.fld] == nil || row[rv.fld] == nil {
+								ws = nil
+								break
+							}
+							ws = append(ws, mk(row[rk.fld], row[rv.fld]))
+						}
+						if len(ws) > 0 {
+							writes = append(writes, ws...)
+							return
+						}
+					}
+				}
+			}
+			writes = append(writes, mk(mu.Key, mu.Value))
 		})
 		appendedIn[fn] = c26AppendedStrings(fn)
 		appended = append(appended, appendedIn[fn]...)
@@ -170,7 +200,7 @@ func runC26(c *an.Ctx) {
 			return false
 		}
 		if len(bMaps) == 0 {
-			return true // the map is filled entirely by helpers
+			return false // the map is filled entirely by helpers: they are found by their own map writes
 		}
 		for _, m := range bMaps {
 			if c25SameValue(v, m) {
@@ -181,7 +211,16 @@ func runC26(c *an.Ctx) {
 	}
 	var bFamily []*ssa.Function
 	bFamily = append(bFamily, builder)
-	for _, hop := range c26Helpers(builder, isMapVal) {
+	for _, hop := range c26Helpers(builder, isMapVal, func(h *ssa.Function) bool {
+		// a helper that fills a map itself (the value map is created and filled in a helper)
+		found := false
+		an.Instrs(h, func(in ssa.Instruction) {
+			if _, ok := in.(*ssa.MapUpdate); ok {
+				found = true
+			}
+		})
+		return found
+	}) {
 		collect(hop.callee, []c26Hop{hop, bHop})
 		bFamily = append(bFamily, hop.callee)
 	}
@@ -228,9 +267,18 @@ func runC26(c *an.Ctx) {
 		}
 	}
 	if reserved == nil {
-		// the consultation itself is an O2 obligation; the table is then found by name
-		if g, ok := builder.Pkg.Members["reservedKeys"].(*ssa.Global); ok {
-			reserved = g
+		// the consultation itself is an O2 obligation; the table is then found by role: the package-level
+		// map[string]... consulted (comma-ok) by the methods of Record
+		for _, m := range p.Methods(ip, "Record") {
+			for _, g := range an.WithClosures(m) {
+				an.Instrs(g, func(in ssa.Instruction) {
+					if lk, ok := in.(*ssa.Lookup); ok && lk.CommaOk {
+						if gl, ok := c26GlobalOf(lk.X); ok {
+							reserved = gl
+						}
+					}
+				})
+			}
 		}
 	}
 	if c.Need(reserved != nil, "reserved-key table consulted by the record builder") {
@@ -276,7 +324,7 @@ func runC26(c *an.Ctx) {
 		}
 		// only for keys written as an unclamped cast of a constructor input (the full input range is stored)
 		fullRange := true
-		broots, _ := c26Sig(w.in.Value)
+		broots, _ := c26Sig(w.val)
 		if lifted, ok := c26Lift(broots, w.chain); !ok {
 			fullRange = false
 		} else {
@@ -379,7 +427,16 @@ func runC26(c *an.Ctx) {
 				isOption := func(fn *ssa.Function, v ssa.Value) bool {
 					return c28DeepAll(ipFns, fn, v, func(l c28DV) bool {
 						f, _ := c28FieldRead(l.v)
-						return f != nil && f.Name() == "embedPublicKey"
+						if f == nil {
+							return false
+						}
+						// the explicit embed option: a *bool field of the (unexported) options struct
+						pt, ok := f.Type().Underlying().(*types.Pointer)
+						if !ok {
+							return false
+						}
+						b, ok := pt.Elem().Underlying().(*types.Basic)
+						return ok && b.Kind() == types.Bool
 					})
 				}
 				var resolve func(fn *ssa.Function, v ssa.Value, depth int)
@@ -532,6 +589,16 @@ func c26AppendedStrings(fn *ssa.Function) []ssa.Value {
 			for _, rr := range *ia.Referrers() {
 				if st, ok := rr.(*ssa.Store); ok && st.Addr == ia {
 					out = append(out, st.Val)
+					// appended from the rows of a local literal table: every row's value
+					if rd, isRow := c25RowRead(st.Val); isRow {
+						if rows, okT := c25TableRows(rd.arr); okT && c25RowLoop(fn, &rd) != nil {
+							for _, row := range rows {
+								if row[rd.fld] != nil {
+									out = append(out, row[rd.fld])
+								}
+							}
+						}
+					}
 				}
 			}
 		}
@@ -626,7 +693,7 @@ func c26KeyReads(f *ssa.Function, bind map[*ssa.Parameter]string, depth int) []c
 		}
 		cc := cv.Common()
 		if cc.IsInvoke() && cc.Method.Name() == "LookupByString" {
-			if an.PathOf(cc.Value) != "p:"+recv.Name()+".node" {
+			if an.PathOf(cc.Value) != "p:"+recv.Name()+"."+c25NodeName {
 				continue
 			}
 			k, ok := keyOf(cc.Args[0])
@@ -755,7 +822,7 @@ func c26Twins(c *an.Ctx, ctor, builder *ssa.Function, bcall *ssa.Call, written m
 		chain []c26Hop
 	}
 	pbWriters := []pbWriter{{ctor, nil}}
-	for _, hop := range c26Helpers(ctor, func(v ssa.Value) bool { return an.TypeIs(v.Type(), c25PB, "IpnsRecord") }) {
+	for _, hop := range c26Helpers(ctor, func(v ssa.Value) bool { return an.TypeIs(v.Type(), c25PB, "IpnsRecord") }, nil) {
 		pbWriters = append(pbWriters, pbWriter{hop.callee, []c26Hop{hop}})
 	}
 	for _, g := range gs {
@@ -764,7 +831,7 @@ func c26Twins(c *an.Ctx, ctor, builder *ssa.Function, bcall *ssa.Call, written m
 		if !ok {
 			continue // reported by O1.a
 		}
-		broots, bxf := c26Sig(w.in.Value)
+		broots, bxf := c26Sig(w.val)
 		// lift to the constructor
 		lifted, liftOK := c26Lift(broots, w.chain)
 		// NewRecord's inputs have pairwise distinct types, so the type identifies the input
@@ -912,7 +979,7 @@ func c26Metadata(c *an.Ctx, builder0 *ssa.Function, writes []c26MapWrite, append
 		notRes := an.BoolEdges(builder, oks, false)
 		c.Check(len(oks) > 0 && an.GuardedBy(builder, nil, w.in, notRes), "O2", "R-DOM", bname, "metadata key not reserved", w.in.Pos(), "metadata stored only where the key is absent from the reserved table", "a metadata entry can be stored without the key being known absent from the reserved table: metadata can replace a signed IPNS field")
 		// conversion on nil edge
-		if call, ok := c25RootCall(w.in.Value, an.M(ip, "-", "")); ok && call.Call.StaticCallee() != nil {
+		if call, ok := c25RootCall(w.val, an.M(ip, "-", "")); ok && call.Call.StaticCallee() != nil {
 			conv = call.Call.StaticCallee()
 			c.Check(an.OnNilEdgeOf(builder, call, w.in), "O2", "R-DOM", bname, "metadata value converted", w.in.Pos(), "value stored on the nil edge of the converter", "a metadata value is stored although its conversion failed (unsupported type not rejected)")
 		} else {
@@ -1040,7 +1107,7 @@ func c26Unmarshal(c *an.Ctx, fPB *types.Var) {
 		}
 	}
 	if pbv == nil {
-		c.Bad("O3", "R-FLOW", name, "Record.pb set", um.Pos(), "UnmarshalRecord returns a Record whose pb is not set in this function")
+		c.Bad("O3", "R-FLOW", name, "protobuf set", um.Pos(), "UnmarshalRecord returns a Record whose pb is not set in this function")
 		return
 	}
 	root := c25Env{fn: um, vals: map[string][]ssa.Value{"data": {data}, "pb": {pbv}}}
@@ -1106,7 +1173,7 @@ func c26Unmarshal(c *an.Ctx, fPB *types.Var) {
 		good := false
 		for _, call := range an.Calls(mr, an.M("google.golang.org/protobuf/proto", "", "Marshal"), an.M("google.golang.org/protobuf/proto", "MarshalOptions", "Marshal")) {
 			a := an.Args(call)
-			if an.PathOf(a[len(a)-1]) == "p:"+mr.Params[0].Name()+".pb" {
+			if an.PathOf(a[len(a)-1]) == "p:"+mr.Params[0].Name()+"."+c25PBName {
 				for _, r := range an.Returns(mr) {
 					if c25RootsIn(r.Results[0], an.Result(call, 0)) {
 						good = true
